@@ -37,7 +37,7 @@ TABLE = [
      "W3: a Composite/Variant definition has a non-empty path (the early return excluded every other definition)"),
     (r"TypeGenerator::resolve_type_path_recurse", "index", r"Vec", r".*type_params\['0'\]",
      "W5: a type whose ident is `Cow` is scale-info's description of std Cow, which has exactly one type parameter"),
-    (r"utils::ensure_unique_type_paths", "index", r"Vec", r".*HashMap::entry\(.*\.ty\.path\.segments\)\)\)\['0'\]",
+    (r"utils::ensure_unique_type_paths", "index", r"Vec", r".*\.ty\.path\.segments\)+\['0'\]",
      "groups are created as vec![id] and only ever pushed to: never empty"),
     (r"utils::ensure_unique_type_paths", "unwrap", r"Option::expect", r"slice::get_mut\(P0\.types,.*",
      "group members are enumerate() indices of the same Vec, which is not resized in between"),
@@ -118,6 +118,21 @@ def mechanical(ctx, P, s, N, fn, graph, operand, extra):
     if s.kind == "assert" and s.operand.startswith("quote-repetition-counter"):
         return True, "element counter of a quote! `#(..),*` repetition (bounded by the number of emitted elements)"
     if node is None:
+        return None
+    if s.kind == "assert":
+        if s.callee == "Overflow:Add" and node.get("k") == "Binary":
+            l, r = N.term(node["l"]), N.term(node["r"])
+
+            def is_len(t):
+                return t[0] == "call" and t[1] in GD.LEN_FNS
+
+            def small(t):
+                try:
+                    return t[0] == "lit" and 0 <= int(t[1]) < 2 ** 16
+                except (TypeError, ValueError):
+                    return False
+            if (is_len(l) or small(l)) and (is_len(r) or small(r)) and (is_len(l) or is_len(r)):
+                return True, "a collection length is at most isize::MAX, so adding another length or a small constant cannot overflow usize"
         return None
     conds = GD.dominating(N, fn["body"], node)
     if s.kind == "index":
@@ -235,12 +250,20 @@ def unreachable_ok(N, fn, node, conds):
             for a in m["arms"]:
                 explicit |= {v for v in pat_variants(a["pat"]) if v != "_"}
         # an earlier early-return keeps only values matching `matches!(scr, A | B)`
+        def or_leaves(t):
+            if t[0] == "op" and t[1] == "||":
+                return or_leaves(t[2][0]) + or_leaves(t[2][1])
+            return [t]
         for c in flat:
-            if c[0] != "arm" and c[0] is True and c[1][0] == "iflet" and show(c[1][2]) == scr:
-                kept = set(re.findall(r"(TypeDef::\w+)\(", c[1][1]))
-                if kept and kept <= explicit:
-                    return True, "only %s reach the match (early return), and each has an explicit arm" % sorted(kept)
-                return False, "early return lets %s through but the match handles only %s explicitly" % (sorted(kept), sorted(explicit))
+            if c[0] != "arm" and c[0] is True:
+                leaves = or_leaves(c[1])
+                if all(l[0] == "iflet" and show(l[2]) == scr for l in leaves):
+                    kept = set()
+                    for l in leaves:
+                        kept |= set(re.findall(r"(TypeDef::\w+)\(", l[1]))
+                    if kept and kept <= explicit:
+                        return True, "only %s reach the match (early return), and each has an explicit arm" % sorted(kept)
+                    return False, "early return lets %s through but the match handles only %s explicitly" % (sorted(kept), sorted(explicit))
         return None
     # (2) `if a {..} else if b {..} else { unreachable!() }` after `if !(a || b) { return }`
     neg = [show(t) for pol, t in [c for c in flat if c[0] != "arm"] if pol is False]
